@@ -234,6 +234,80 @@ def rule_comp(c, prog):
         c.violation(R, "detect|shape", "Chunk::decode has no successful path for compressed_len != 0", fn.sp, instance="zstd-iff-magic-else-lz4")
 
 
+def rule_reforder(c, prog, R="C04.disp"):
+    """references are resolved only when every instance chunk has been read"""
+    fn = common.find_fn(prog, DS + "decode_prop_chunk$")
+    INST = re.compile(r"HashMap<i32, rbx_binary::deserializer::state::Instance")
+    own = set()     # locals bound by iterating the class's own referents
+    for n in core.walk_fn(fn):
+        if n.get("k") == "DropTemps":
+            continue
+        fl = core.as_for(n)
+        if fl is None:
+            continue
+        its = [y for y in core.walk(fl[1]) if y.get("k") == "Field" and y.get("f") == "referents"]
+        stack = [fl[0]]
+        lids = []
+        while stack:
+            x = stack.pop()
+            if isinstance(x, dict):
+                if x.get("k") == "Binding":
+                    lids.append(x["lid"])
+                stack.extend(v for v in x.values() if isinstance(v, (dict, list)))
+            elif isinstance(x, list):
+                stack.extend(x)
+        if its:
+            # `for (value, referent) in values.zip(&type_info.referents)`: only the binding that comes from `.referents`
+            pat = fl[0]
+            if pat.get("k") == "Tuple" and len(pat.get("pats") or []) == 2:
+                zipped = core.strip(fl[1])
+                own_side = 1 if zipped.get("k") == "MethodCall" and zipped["m"] == "zip" and any(y.get("k") == "Field" and y.get("f") == "referents" for y in core.walk(zipped["args"][0])) else 0
+                q = pat["pats"][own_side]
+                own |= {b["lid"] for b in [q] if b.get("k") == "Binding"}
+            else:
+                own |= set(lids)
+    eager = []
+    for x in core.walk_fn(fn):
+        if x.get("k") == "MethodCall" and x["m"] in ("get", "contains_key", "get_mut") and INST.search(((core.strip(x["recv"]).get("ty") or "") + (x["recv"].get("aty") or "")).replace("ahash::", "")) and x["args"]:
+            key = core.strip(x["args"][0])
+            while key.get("k") in ("AddrOf", "Unary"):
+                key = core.strip(key["e"])
+            # the instance a PROP value is stored ON is taken mutably (`get_mut`); a shared lookup under a key that is not
+            # one of the class's own referents is the resolution of a reference target
+            if x["m"] in ("get", "contains_key") and key.get("k") == "Path" and key.get("res") == "local" and key["lid"] not in own:
+                eager.append(x)
+    inst = "prop:reference-targets-resolved-late"
+    if eager:
+        c.violation(R, "ref-target|resolved-at-prop-time", f"decode_prop_chunk looks the TARGET of a reference up in the instance table while it decodes the PROP chunk ({len(eager)} site(s): Ref values, Content object values): a target whose INST chunk comes later in the file is not there yet, and the reference silently becomes null — the result depends on the order of instance and property chunks", core.loc(eager[0]), instance=inst)
+    else:
+        c.ok(R, inst)
+
+
+def rule_bits(c, prog, R="C04.gram"):
+    """bit-field types: bits the specification declares meaningless must not make the reader reject the file"""
+    import os
+    doc = open(os.path.join(core.REPO, "docs", "binary.md"), encoding="utf-8").read()
+    fn, darms = common.binary_decoder_arms(prog)
+    n = 0
+    for ty in ("Faces", "Axes"):
+        m = re.search(r"### " + ty + r"\b(.*?)(?=\n### )", doc, re.S)
+        sect = m.group(1) if m else ""
+        meaningless = re.search(r"remaining \w+ bits have no meaning", sect) is not None
+        arm = darms.get(ty, {}).get(ty)
+        if arm is None or not meaningless:
+            continue
+        n += 1
+        inst = f"bits:{ty}"
+        strict = [x for x in core.walk(arm["body"]) if x.get("k") == "Call" and (core.callee(x) or "").endswith(f"::{ty}::from_bits")]
+        masked = any(y.get("k") == "Binary" and y["op"] == "&" for x in strict for y in core.walk(x)) or any(x.get("k") in ("Call", "MethodCall") and (core.callee(x) or "").endswith("from_bits_truncate") for x in core.walk(arm["body"]))
+        errs = any(x.get("k") == "MethodCall" and x["m"] in ("ok_or", "ok_or_else") for x in core.walk(arm["body"]))
+        if strict and errs and not masked:
+            c.violation(R, f"strict-bits|{ty}", f"docs/binary.md says the unused high bits of a {ty} byte have no meaning, but the reader hands the raw byte to {ty}::from_bits and turns `None` into InvalidPropData: a conforming file with one of those bits set (e.g. 0xA1 for Faces, 0x45 for Axes) is rejected as a whole", core.loc(strict[0]), instance=inst)
+        else:
+            c.ok(R, inst)
+    c.floor(R, n, 2, "bit-field types with bits the document calls meaningless")
+
+
 def rule_disp(c, prog):
     R = "C04.disp"
     c.rule(R, "decode_prop_chunk returns Ok(()) — touching no instance — when the type byte is missing or unknown; chunk order is not assumed; INST object format 1 is accepted; unknown chunk names are skipped (see C13.trunc)")
@@ -405,6 +479,7 @@ def run(c, prog):
     rule_widen(c, prog)
     rule_comp(c, prog)
     rule_disp(c, prog)
+    rule_reforder(c, prog)
     rule_ids(c, prog)
     # shared clauses: the reader-side scalar codecs equal the document's formulas (zig-zag, float rotation, interleaving, referent accumulation),
     # and a migrating legacy chunk never overwrites an explicit value whatever the chunk order
@@ -415,4 +490,5 @@ def run(c, prog):
     from . import C01_arm, C03_gram
     C01_arm.run(core.Alias(c, "C04"), prog)
     C03_gram.run(c, prog, R="C04.gram")
+    rule_bits(c, prog)
     c.not_decided += ["equality of the decoded DOM with the one described, for every foreign encoding (a run)", "third-party decompressors"]
